@@ -327,6 +327,47 @@ func c16Decoding(rep *monitor.Report, gate *[]GateCase) int {
 			rep.Covered(P, fmt.Sprintf("decode:pair%d-%d", i, j))
 		}
 	}
+	// the same configuration with an empty leading / trailing YAML document, and with keys spelled in another
+	// letter case in both renderings, is still the same configuration
+	for i := range cfgs {
+		groups := []map[string]interface{}{optsMap(cfgs[i])}
+		plain, errP := decode(renderYAML(groups))
+		n++
+		if errP != nil || len(plain) != 1 {
+			continue
+		}
+		for name, text := range map[string]string{
+			"trailing-empty-document": renderYAML(groups) + "---\n# end of file\n",
+			"leading-marker":          "---\n" + renderYAML(groups),
+			"trailing-marker":         renderYAML(groups) + "...\n",
+		} {
+			got, err := decode(text)
+			n++
+			rep.Covered(P, "decode:yaml-"+name)
+			if err != nil || len(got) != 1 || !sameOpts(got[0], plain[0]) {
+				rep.Violate(P, "yaml-document-markers-change-result:"+name, "YAML with %s decodes to %d group(s) (err %v), the plain file to 1: %+v", name, len(got), err, got)
+			}
+		}
+		// key spelling: both renderings with the same capitalised keys must agree with each other
+		cased := map[string]interface{}{}
+		for k, v := range optsMap(cfgs[i]) {
+			switch k {
+			case "name", "dry_mode", "max_nodes":
+				cased[strings.ToUpper(k[:1])+k[1:]] = v
+			case "aws":
+				cased["AWS"] = v
+			default:
+				cased[k] = v
+			}
+		}
+		cy, errY := decode(renderYAML([]map[string]interface{}{cased}))
+		cj, errJ := decode(renderJSON([]map[string]interface{}{cased}))
+		n += 2
+		rep.Covered(P, "decode:key-case")
+		if (errY == nil) != (errJ == nil) || (errY == nil && (len(cy) != len(cj) || (len(cy) == 1 && !sameOpts(cy[0], cj[0])))) {
+			rep.Violate(P, "yaml-json-differ:key-case", "keys Name/Dry_mode/Max_nodes/AWS: YAML decodes to %+v (err %v), JSON to %+v (err %v)", cy, errY, cj, errJ)
+		}
+	}
 	// documented keys: every key of the example block in the documentation must influence the decoded options
 	repo := os.Getenv("VERIF_REPO")
 	if repo == "" {
